@@ -509,7 +509,16 @@ def rule_bookkeeping(ctx):
     fi = ctx.fn(BASES + 'AbstractHasAxes._get_indices')
     DIMS = ('attr', SELF, 'dims')
     for indexing in ('label', 'position'):
-        ev = run(ctx, fi, bind={'indexing': const(indexing)})
+        def nd_oracle(atom, st):
+            # the result of np.asarray(...) / .astype(...) is an ndarray
+            if atom[0] == 'call' and T.dotted(atom[1]) == 'isinstance' and len(atom[2]) == 2 and T.dotted(atom[2][1]) in ('np.ndarray', 'numpy.ndarray'):
+                x = atom[2][0]
+                while x[0] == 'phi' and len([y for y in x[1] if y[0] != 'carried']) == 1:
+                    x = [y for y in x[1] if y[0] != 'carried'][0]
+                if x[0] == 'call' and (T.dotted(x[1]) in ('np.asarray', 'np.array') or T.call_name(x) == 'astype'):
+                    return True
+            return None
+        ev = run(ctx, fi, bind={'indexing': const(indexing)}, oracle=nd_oracle)
         nloc = 0
         mask_tested = [False]
         for p in ret_paths(ev):
@@ -522,6 +531,8 @@ def rule_bookkeeping(ctx):
                     continue
                 # receiver: self.axes[dims[i]] (or self.axes[i]); argument: the i-th index
                 arg0 = strip_trivial(c[2][0]) if c[2] else None
+                while arg0 is not None and arg0[0] == 'call' and (T.call_name(arg0) == 'astype' or T.dotted(arg0[1]) in ('np.asarray', 'np.array')):
+                    arg0 = strip_trivial(T.call_receiver(arg0) if T.call_name(arg0) == 'astype' else arg0[2][0])
                 if not (arg0 is not None and arg0[0] == 'elem'):
                     ctx.undecide('R6', '_get_indices: loc argument is not the loop element: %s' % T.show(arg0))
                     continue
@@ -873,6 +884,33 @@ def rule_issorted_provenance(ctx, rid='R11'):
     ctx.info('%s: %d issorted claims examined' % (rid, n))
 
 
+def rule_empty_selection(ctx, rid='R12'):
+    """"including repeated and empty selections": np.asarray([]) is a float64 array, and NumPy refuses float arrays as indices even when they are empty.
+    The index normalisation of _get_indices converts list indices with np.asarray, so an empty one has to be re-typed as an integer array before it is
+    used as a position (label lookups go through searchsorted and come back as integers)."""
+    ctx.rule(rid, 'an empty list index is given an integer dtype before it is used positionally', 1)
+    fi = ctx.fn(BASES + 'AbstractHasAxes._get_indices')
+    ev = run(ctx, fi, mode='fork', max_paths=50000, bind={'indexing': const('position')})
+    conv = None
+    retyped = False
+    for p in ev.paths:
+        for e in p.events:
+            if e.kind == 'call' and T.dotted(e.a[1]) in ('np.asarray', 'np.array') and e.loops and len(e.a[2]) == 1 and not T.kw(e.a, 'dtype'):
+                conv = e
+            if e.kind == 'call' and ((T.call_name(e.a) == 'astype' and e.a[2][:1] in ((('name', 'int'),), (const('int'),), (const('i'),))) or
+                                     (T.dotted(e.a[1]) in ('np.asarray', 'np.array') and T.kw(e.a, 'dtype') in (('name', 'int'), const('int')))):
+                if any(a[0] == 'cmp' and a[1] == '==' and a[3] == const(0) and ('size' in T.show(a[2]) or 'len(' in T.show(a[2])) and pol is True for a, pol in e.guards):
+                    retyped = True
+    if conv is None:
+        ctx.undecide(rid, '_get_indices: the np.asarray conversion of list indices was not found')
+    elif retyped:
+        ctx.holds(rid, '_get_indices: empty index arrays are re-typed to int')
+    else:
+        ctx.violated(rid, fi, 'empty positional index keeps the float dtype of np.asarray([])', 'list indices are converted with np.asarray and an empty list becomes a float64 array: '
+                     'a.ix[[]], a.take([], axis=k, indexing=\'position\') and put([], v, indexing=\'position\') raise IndexError / ValueError instead of selecting nothing '
+                     '(the label spelling a[[]] works)', node=conv.node)
+
+
 def check(ctx):
     rule_orthogonal_indexer(ctx)
     rule_expanded_indexer(ctx)
@@ -885,6 +923,7 @@ def check(ctx):
     rule_subaxis(ctx)
     rule_axis_argument(ctx)
     rule_issorted_provenance(ctx)
+    rule_empty_selection(ctx)
     ctx.not_decided += ['that argsort + searchsorted + clip returns the right position for every present label (NumPy semantics)',
                         'first-match choice for duplicate labels']
     ctx.trusted += ['numpy.where/argmin/argsort/searchsorted/take documented semantics', 'CPython ast module']
